@@ -45,10 +45,10 @@ def main():
     p = pathlib.Path(a)
     if p.is_dir():
       meta = p / 'meta.json'
-      pp = p / 'patch.diff'
+      pp = (p / "patch.diff").resolve()
       pr = props or ([json.load(open(meta))['property']] if meta.exists() else claimed())
     else:
-      pp = p; pr = props or claimed()
+      pp = p.resolve(); pr = props or claimed()
     res = run(pp, pr)
     hit = [k for k, v in res.items() if k != '_apply' and v[0] == 1]
     err = [k for k, v in res.items() if k != '_apply' and v[0] == 2]
